@@ -49,6 +49,8 @@ def base_outcome(case, res, extra_key=''):
         fired['buffer_size_spelling_' + pst['num']] = 1
     if pst.get('alias'):
         fired['backend_alias_thread'] = 1
+    if pst.get('batched'):
+        fired['batch_map_with_workers'] = 1
     return {
         'violations': [],
         'nontrivial': nontrivial,
